@@ -3,8 +3,8 @@
 stage 1  TLC checks spec/Retry.tla (implementation-shaped model of the urlopen retry loop +
          Retry.from_int / increment / is_retry / is_exhausted / sleep) against the Rules clauses, through the
          same total monitor that later judges real traces: all counter combinations x gating flags x routes x
-         outcome sequences (collapsed graph), the model with the recorded deviation D2 enabled (only the
-         recorded signature may fail), and termination under weak fairness.
+         outcome sequences (collapsed graph), the model with the named deviation RetryAfterNotClamped enabled (must
+         be refuted: SleepsInRange, nothing else first), and termination under weak fairness.
 stage 2  TLC emits, for a pairwise-covering + seeded sample of configurations (passed as JSON), every
          environment history (outcome sequence) with the Model's expected observations.
 stage 3  each scenario drives the REAL HTTPConnectionPool.urlopen (direct pool, pool behind a forwarding proxy
@@ -13,12 +13,13 @@ stage 3  each scenario drives the REAL HTTPConnectionPool.urlopen (direct pool, 
          replaced by a recorder.  The recorded trace is ground truth: connection attempts, wire messages seen by
          the scripted peer, the stage of every injected fault, replies, sleeps, final outcome.
 stage 4  TLC validates every trace (spec/Retry_Trace.tla): the Rules verdict (hard: names the failing clause) and
-         the Model refinement verdict (conforms / conformsD2 / drift), plus seeded random scenarios beyond the
+         the Model refinement verdict (conforms / drift), plus seeded random scenarios beyond the
          enumeration bound.
 """
 from __future__ import annotations
 
 import copy
+import email.utils
 import errno
 import http.client
 import itertools
@@ -53,10 +54,14 @@ OUTCOMES = {
     "OK200": ("status", "resp", 200, -1), "S500": ("status", "resp", 500, -1), "S500RA": ("status", "resp", 500, 11000),
     "S429RA": ("status", "resp", 429, 7000), "S429RA0": ("status", "resp", 429, 0), "S503RA": ("status", "resp", 503, 3000),
     "S413RA": ("status", "resp", 413, 300000), "S404RA": ("status", "resp", 404, 9000),
+    # Retry-After as an HTTP-date: (.., what the server asks for in ms (a past date asks for 0), date - now in s)
+    "S429RAdSkew": ("status", "resp", 429, 0, -2), "S503RAdSkew": ("status", "resp", 503, 0, -2),
+    "S413RAdPast": ("status", "resp", 413, 0, -86400), "S500RAdPast": ("status", "resp", 500, 0, -86400),
+    "S429RAdNow": ("status", "resp", 429, 0, 0), "S429RAdFut": ("status", "resp", 429, 4000, 4),
+    "S500RAdFut": ("status", "resp", 500, 4000, 4),
 }
+VIRTUAL_NOW = 1_700_000_000.0     # time.time() as seen by urllib3.util.retry (whole second: HTTP-dates are exact)
 PLAIN = [o for o in OUTCOMES if o != "TunRefused"]
-CORE = ["ConnRefused", "SendErr", "ReadTimeout", "ReadReset", "ReadEOF", "ReadGarbage", "OK200", "S500", "S429RA",
-        "S503RA", "S413RA", "S404RA"]
 TUNNEL = ["ConnRefused", "ConnTimeout", "TunRefused"]
 
 
@@ -134,13 +139,13 @@ def tunnel_cfgs():
 ANCHORS = [
     base_cfg(total=2, allowed="none", forcelist=True, factor=100, bmax=1000, method="POST"),        # retries of every kind, backoff
     base_cfg(total=2, forcelist=True, jitter=500, method="GET", ka="close"),
-    base_cfg(total=2, read=0, forcelist=True, method="POST", route="forward"),                      # class of D2
+    base_cfg(total=2, read=0, forcelist=True, method="POST", route="forward"),                      # class of the repaired D2
     base_cfg(total=1, status=1, ros=False, forcelist=True, method="PUT", level="pool"),
     base_cfg(total=2, other=1, method="GET", route="tunnel", ka="close"),                           # `other` budget
     base_cfg(how="false", total=0, method="GET"), base_cfg(how="int", total=1, method="DELETE", level="pool"),
     base_cfg(how="default", total=0, method="POST", route="forward"),
 ]
-FEATURES = ["retry-after:connect", "retry-after:read", "retry-after:status", "retry-after:other", "sleep:backoff",
+FEATURES = ["retry-after-date:past", "retry-after-date:future", "retry-after:connect", "retry-after:read", "retry-after:status", "retry-after:other", "sleep:backoff",
             "sleep:retry-after", "end:response", "end:maxretry", "end:raise", "reuse", "caller-retry-object"]
 
 
@@ -161,6 +166,9 @@ def features(tr):
             f.add("sleep:retry-after" if last == "status" and e["lo"] == lastra else "sleep:backoff")
         elif e["ev"] == "end":
             f.add("end:" + e["kind"])
+    for i, o in enumerate(tr["seq"][:-1]):     # a dated Retry-After reply that was followed by another attempt
+        if len(OUTCOMES[o]) > 4:
+            f.add("retry-after-date:" + ("past" if OUTCOMES[o][4] < 0 else "future" if OUTCOMES[o][4] > 0 else "now"))
     if tr["cfg"]["how"] == "retry":
         f.add("caller-retry-object")
     return f
@@ -288,7 +296,7 @@ class Driver:
         self.pending_recv = None       # (kind, exception) to raise at the next receive of this attempt
         self.last = None               # (stage, kind, status, injected exception or None)
         self.natt = 0
-        self.form = ""
+        self.now = VIRTUAL_NOW
 
     # -- helpers
     def cur(self):
@@ -314,7 +322,7 @@ class Driver:
 
     def consume(self, exc=None):
         o = self.cur()
-        stage, kind, status, ra = OUTCOMES[o]
+        stage, kind, status, ra = OUTCOMES[o][:4]
         self.consumed.append(o)
         self.i += 1
         self.open_att = False
@@ -346,7 +354,7 @@ class Driver:
         return Script()
 
     def on_connect(self):
-        stage, kind, _, _ = OUTCOMES[self.cur()]
+        stage, kind = OUTCOMES[self.cur()][:2]
         if stage != "connect":
             return None
         exc = ConnectionRefusedError(errno.ECONNREFUSED, "refused") if kind == "refused" else socket.timeout("timed out")
@@ -356,7 +364,7 @@ class Driver:
 
     def on_send(self):
         self.begin(False)        # request bytes on a connection that was not just dialled: reuse
-        stage, kind, _, _ = OUTCOMES[self.cur()]
+        stage, kind = OUTCOMES[self.cur()][:2]
         if stage != "send":
             return None
         exc = OSError(errno.EHOSTUNREACH, "no route to host")
@@ -375,7 +383,7 @@ class Driver:
 
     def responder(self, peer, req):
         o = self.cur()
-        stage, kind, status, ra = OUTCOMES[o]
+        stage, kind, status, ra = OUTCOMES[o][:4]
         if req.method == "CONNECT":
             if stage != "tunnel":
                 raise HarnessProblem(f"CONNECT received but the scripted outcome is {o}")
@@ -399,7 +407,10 @@ class Driver:
         keep = self.cfg["ka"] == "keep" and OUTCOMES[self.nxt()][0] not in ("connect", "tunnel")
         self.consume(None)
         self.ev("reply", kind="resp", status=status, ra=ra)
-        hs = [("Retry-After", str(ra // 1000))] if ra >= 0 else []
+        if len(OUTCOMES[o]) > 4:      # HTTP-date relative to the virtual clock urllib3.util.retry reads
+            hs = [("Retry-After", email.utils.formatdate(self.now + OUTCOMES[o][4], usegmt=True))]
+        else:
+            hs = [("Retry-After", str(ra // 1000))] if ra >= 0 else []
         return vnet.Reply(vnet.http_response(status, b"body-%d" % status, headers=hs, keepalive=keep), close=not keep)
 
 
@@ -410,8 +421,14 @@ class SleepRecorder:
         self.drv, self.real = drv, real
 
     def sleep(self, x):
-        ms = int(min(2_000_000_000, math.ceil(float(x) * 1000 - 1e-6)))
+        ms = int(max(-2_000_000_000, min(2_000_000_000, math.ceil(float(x) * 1000 - 1e-6))))
         self.drv.ev("sleep", lo=ms, hi=ms)
+        if x < 0:                      # exactly what time.sleep does
+            raise ValueError("sleep length must be non-negative")
+        self.drv.now += float(x)
+
+    def time(self):
+        return self.drv.now
 
     def __getattr__(self, name):
         return getattr(self.real, name)
@@ -591,7 +608,7 @@ def stage1(rep, quick):
             rep.violation("DesignViolatesRules", f"TLC: {r.violated} violated by the Model ({name})",
                           {"kind": "stage1", "run": name})
     # (b) vacuity: every action of the Model fires (coverage of a small run)
-    r = tlc.run("MC_Retry", mc_cfg(["InvRules"], family="FamSmall", maxlen=2, routes="RBoth"), workers=2, heap="2g",
+    r = tlc.run("MC_Retry", mc_cfg(["InvRules"], family="FamSmall", maxlen=2, routes="RBoth"), workers="auto", heap="2g",
                 timeout=3600, coverage=True, **dummy)
     cov = {a: r.coverage.get(a, (0, 0)) for a in ACTIONS}
     rep.extra["action_coverage"] = {a: list(v) for a, v in cov.items()}
@@ -599,28 +616,20 @@ def stage1(rep, quick):
     if dead:
         raise tlc.MachineryError(f"stage 1: actions never taken (vacuous model): {dead}")
     rep.add_tlc("MC_Retry coverage", r)
-    # (c) the Model with the recorded deviation: only the recorded signature may fail, and it does fail
-    fwd = dict(family="FamForward", routes="RForward", defects="DefectD2", outcomes="OutcomesTiny",
-               **(dict(dcr="CRTiny") if quick else dict(dflag="BOOLEAN")))
-    r = tlc.run("MC_Retry", mc_cfg(["InvOnlyKnownSignature", "InvFalseReraises", "InvRetryAfterOnlyFor", "InvSleepsInRange",
-                                    "InvCallerRetryUntouched", "InvExhaustionShape", "InvAccounted"], **fwd),
-                workers="auto", heap="3g", timeout=7200, expect_fail=True, **dummy)
-    rep.add_tlc("MC_Retry D2 (signature only)", r)
-    if r.error:
-        raise tlc.MachineryError(f"stage 1 (D2): {r.error}\n{r.out[-2000:]}")
-    if r.violated:
-        rep.violation("DeviationBeyondSignature", f"TLC: with D2 enabled {r.violated} fails outside the recorded signature",
-                      {"kind": "stage1", "run": "D2"})
-    r = tlc.run("MC_Retry", mc_cfg(["InvNoResendAfterReach"], **fwd), workers=1, heap="2g", timeout=3600,
-                expect_fail=True, **dummy)
-    r2 = tlc.run("MC_Retry", mc_cfg(["InvWithinBudgets"], **fwd), workers=1, heap="2g", timeout=3600, expect_fail=True, **dummy)
-    rep.extra["d2_design_level"] = {"InvNoResendAfterReach": r.violated, "InvWithinBudgets": r2.violated}
-    if r.violated != ["InvNoResendAfterReach"] or r2.violated != ["InvWithinBudgets"]:
-        raise tlc.MachineryError(f"stage 1: the D2 deviation should break NoResendAfterReach and WithinBudgets at design "
-                                 f"level, TLC reported {r.violated} / {r2.violated}")
+    # (c) the named deviation RetryAfterNotClamped (a Retry-After date in the past slept unclamped) is REFUTED by
+    #     the Rules: TLC must report SleepsInRange, and nothing before it
+    dev = dict(family="FamSmall", routes="RDirect", defects="DefectUnclamped", outcomes="OutcomesTiny")
+    r = tlc.run("MC_Retry", mc_cfg(["InvSleepsInRange"], **dev), workers=2, heap="2g", timeout=3600, expect_fail=True, **dummy)
+    r2 = tlc.run("MC_Retry", mc_cfg(["InvOnlyUnclampedSignature"], maxlen=2, **dev), workers="auto", heap="2g", timeout=3600,
+                 expect_fail=True, **dummy)
+    rep.add_tlc("MC_Retry RetryAfterNotClamped (signature only)", r2)
+    rep.extra["deviation_refuted"] = {"RetryAfterNotClamped": r.violated, "beyond_signature": r2.violated}
+    if r.violated != ["InvSleepsInRange"] or r2.violated or r2.error:
+        raise tlc.MachineryError(f"stage 1: the deviation RetryAfterNotClamped should break SleepsInRange (and only that "
+                                 f"first); TLC reported {r.violated} / {r2.violated} {r2.error}")
     # (d) termination under weak fairness, environment unconstrained (MaxLen beyond every budget)
     r = tlc.run("MC_Retry", mc_cfg(["Terminates", "InvWireBound"], view=False, maxlen=7, bounded="TRUE", outcomes="OutcomesTiny",
-                                   **(dict(dcr="CRTiny", dso="SOSmall") if quick else dict(routes="RBoth"))),
+                                   **(dict(dcr="CRMini", dso="SOSmall") if quick else dict(routes="RBoth"))),
                 workers="auto", heap="3g", timeout=7200, expect_fail=True, **dummy)
     rep.add_tlc("MC_Retry liveness", r)
     if r.error:
@@ -631,12 +640,12 @@ def stage1(rep, quick):
 
 
 def validate(traces):
-    """Batch trace validation by TLC: [(tid, pos, clause, eofRetry, model verdict, model pos)]."""
+    """Batch trace validation by TLC: [(tid, pos, clause, model verdict, model pos)]."""
     slim = [{"cfg": t["cfg"], "seq": t["seq"], "ev": t["ev"]} for t in traces]
     r = tlc.run("Retry_Trace", TRACE_CFG, workers=1, files={"traces.json": json.dumps(slim)},
                 env={"TRACE_FILE": "traces.json"}, timeout=7200, heap="3g")
     vs = tlc.tagged_tuples(r.out, "VERDICT")
-    if len(vs) != len(traces) or any(len(v) != 6 for v in vs) or sorted(v[0] for v in vs) != list(range(1, len(traces) + 1)):
+    if len(vs) != len(traces) or any(len(v) != 5 for v in vs) or sorted(v[0] for v in vs) != list(range(1, len(traces) + 1)):
         raise tlc.MachineryError(f"trace validation produced {len(vs)} verdicts for {len(traces)} traces\n{r.out[-2000:]}")
     return r, sorted(vs)
 
@@ -650,7 +659,7 @@ def nontrivial_key(tr):
 def judge(traces, verdicts):
     """Turn TLC's verdicts into results: list of dicts (kind violation|known|drift|problem)."""
     out = []
-    for tr, (tid, pos, clause, eof, mv, mpos) in zip(traces, verdicts):
+    for tr, (tid, pos, clause, mv, mpos) in zip(traces, verdicts):
         case = {"kind": "scenario", "cfg": tr["cfg"], "seq": tr["seq"], "scripted": tr.get("scripted", tr["seq"])}
         if tr.get("problem"):
             out.append({"kind": "problem", "what": tr["problem"], "case": case})
@@ -659,7 +668,7 @@ def judge(traces, verdicts):
             out.append({"kind": "problem", "what": f"monitor could not account for an attempt at event {pos}", "case": case})
             continue
         if clause != "ok":
-            facts = {"route": tr["cfg"]["route"], "clause": clause, "eof_reset_retry": eof == "eofRetry", "model": mv}
+            facts = {"route": tr["cfg"]["route"], "clause": clause, "model": mv, "last_outcome": (tr["seq"] or [""])[-1]}
             out.append({"kind": "bad", "clause": clause, "facts": facts, "case": case,
                         "what": f"{clause} fails at event {pos} of the recorded trace: cfg={_short(tr['cfg'])} "
                                 f"outcomes={tr['seq']} events={_brief(tr['ev'][:pos])}"})
@@ -667,8 +676,6 @@ def judge(traces, verdicts):
             out.append({"kind": "drift", "case": case,
                         "what": f"trace is not a behaviour of the Model (event {mpos}): cfg={_short(tr['cfg'])} "
                                 f"outcomes={tr['seq']} events={_brief(tr['ev'])}"})
-        elif mv == "conformsD2":
-            out.append({"kind": "d2", "case": case})
     return out
 
 
@@ -702,7 +709,7 @@ def _emit_shard(args):
     cfgs, maxlen, outcomes, defects, batch = args
     by_id = {c["id"]: c for c in cfgs}
     stats = {"emitted": 0, "executed": 0, "events": 0, "exp_mismatch": 0, "exp_mismatch_samples": [], "results": [],
-             "nontrivial": [], "samples": [], "d2": 0, "traces": 0, "exp_explained": 0, "features": {}}
+             "nontrivial": [], "samples": [], "traces": 0, "features": {}}
     pending = []
 
     def flush():
@@ -713,23 +720,12 @@ def _emit_shard(args):
         stats["traces"] += len(traces)
         for (sc, tr), v in zip(pending, vs):
             mm = sc.get("_mismatch")
-            if mm and v[4] != "drift":
-                # expectations were emitted by the Model as the code is (D2 enabled).  The only explained
-                # mismatch: the scripted history contains a D2 trigger and the code follows the repaired design.
-                explained = (v[4] == "conforms" and tr["cfg"]["route"] == "forward"
-                             and any(o in ("ReadEOF", "ReadReset") for o in sc["seq"]))
-                if explained:
-                    stats["exp_explained"] += 1
-                else:
-                    stats["results"].append({"kind": "drift", "what": "emitted expectation not met although TLC accepts "
-                                             "the trace as a Model behaviour: " + mm,
-                                             "case": {"kind": "scenario", "cfg": tr["cfg"], "seq": tr["seq"],
-                                                      "scripted": sc["seq"]}})
-        for r in judge(traces, vs):
-            if r["kind"] == "d2":
-                stats["d2"] += 1
-            else:
-                stats["results"].append(r)
+            if mm and v[3] != "drift":     # TLC accepts the trace as a Model behaviour, yet the emitted expectation differs
+                stats["results"].append({"kind": "drift", "what": "emitted expectation not met although TLC accepts "
+                                         "the trace as a Model behaviour: " + mm,
+                                         "case": {"kind": "scenario", "cfg": tr["cfg"], "seq": tr["seq"],
+                                                  "scripted": sc["seq"]}})
+        stats["results"] += judge(traces, vs)
         del pending[:]
 
     def on_line(ln):
@@ -789,8 +785,8 @@ def _random_shard(args):
         traces.append(tr)
     _, vs = validate(traces)
     res = judge(traces, vs)
-    return {"n": n, "events": sum(len(t["ev"]) for t in traces), "results": [r for r in res if r["kind"] != "d2"],
-            "d2": sum(1 for r in res if r["kind"] == "d2"),
+    return {"n": n, "events": sum(len(t["ev"]) for t in traces), "results": res,
+            "features": sorted(set().union(*[features(t) for t in traces])),
             "nontrivial": [nontrivial_key(t) for t in traces if len(t["seq"]) > 1],
             "sample": {"random_scenario": {"cfg": _short(traces[0]["cfg"]), "seq": traces[0]["scripted"]},
                        "trace": _brief(traces[0]["ev"])}}
@@ -832,13 +828,13 @@ def run(rep):
     J = jobs()
     if quick:
         cfgs = sample_cfgs(rng, n_random=30, n_forms=24, n_tunnel=10)
-        plans = [(cfgs, 3, "OutcomesEmit", "DefectD2")]
+        plans = [(cfgs, 3, "OutcomesEmit", "NoDefects")]
     else:
         cfgs = sample_cfgs(rng, n_random=420, n_forms=400, n_tunnel=128)
         deep = [dict(c) for c in cfgs if bounded(c)][:160]
-        plans = [(cfgs, 3, "OutcomesAll", "DefectD2"), (deep, 5, "OutcomesTiny", "DefectD2")]
+        plans = [(cfgs, 3, "OutcomesAll", "NoDefects"), (deep, 5, "OutcomesTiny", "NoDefects")]
     rep.extra["configurations"] = len(cfgs)
-    totals = {"emitted": 0, "executed": 0, "exp_mismatch": 0, "exp_explained": 0, "d2": 0, "events": 0}
+    totals = {"emitted": 0, "executed": 0, "exp_mismatch": 0, "events": 0}
     feats = {f: 0 for f in FEATURES}
     known_hits = 0
     with mp.Pool(J) as pool:
@@ -871,18 +867,15 @@ def run(rep):
             rep.traces += o["n"]
             rep.evaluations += o["n"]
             totals["events"] += o["events"]
-            totals["d2"] += o["d2"]
             rep.nontrivial.update(o["nontrivial"])
+            for ft in o["features"]:
+                feats[ft] = feats.get(ft, 0) + 1
             known_hits += _collect(rep, o["results"], findings)
         rep.sample(outsr[0]["sample"], cap=6)
     rep.extra.update({"scenarios_emitted": totals["emitted"], "scenarios_executed": totals["executed"],
                       "random_scenarios": nrand, "trace_events": totals["events"],
                       "expectation_mismatches": totals["exp_mismatch"],
-                      "expectation_mismatches_explained_by_repaired_design": totals["exp_explained"],
-                      "situations_covered": feats,
-                      "traces_following_deviation_D2": totals["d2"], "known_finding_traces": known_hits})
-    # the emitted expectations describe the code as it is (D2 enabled): a mismatch that TLC explains by the
-    # repaired design is fine (the defect was fixed), anything else was already reported as drift by TLC
+                      "situations_covered": feats, "known_finding_traces": known_hits})
     missing = [f for f in FEATURES if not feats.get(f)]
     if missing:
         raise tlc.MachineryError(f"situations never reached by any executed scenario (vacuous run): {missing}")
